@@ -172,7 +172,8 @@ def mixed_order(ctx, n):
 
 
 def validation_vectors(ctx, limit):
-    p = '/repo/ed25519-dalek/VALIDATIONVECTORS'
+    from .. import build
+    p = os.path.join(build.REPO, 'ed25519-dalek', 'VALIDATIONVECTORS')
     if not os.path.exists(p):
         return
     vs = json.load(open(p))
